@@ -85,26 +85,142 @@ def check_creator(case):
     return ((kind, L), n), fails
 
 
+def check_switcher(case):
+    """case = ("switch", n leaves, first new active leaf): the molecule <-> atom mode switches on composite objects
+    with n point masses (the shipped configuration only switches dipoles): start-of-run on a leaf, switch to the whole
+    molecule, switch back to one atom (every choice of the atom), committed through the real TreeStateHandler; after
+    every commit the stored root velocity must be the weighted sum of the leaf velocities (absent iff none moves) and
+    the root position advanced to the event time the barycentre."""
+    import jellyfysh.setting as setting
+    from ..env import init_setting
+    from ..seam import Seam
+    from jellyfysh.base.node import Node
+    from jellyfysh.base.particle import Particle
+    from jellyfysh.base.time import Time
+    from jellyfysh.state_handler.tree_state_handler import TreeStateHandler
+    from jellyfysh.state_handler.physical_state.tree_physical_state import TreePhysicalState
+    from jellyfysh.state_handler.lifting_state.tree_lifting_state import TreeLiftingState
+    from jellyfysh.event_handler.root_leaf_unit_active_switcher import RootLeafUnitActiveSwitcher
+    _, nl, pick, speed = case
+    L = 10.0
+    init_setting((L, L, L), cubic=True, roots=2, per_root=nl)
+    fails = []
+    shape = [(0.0, 0.0, 0.0), (0.9, 0.3, 0.1), (-0.4, 0.8, 0.2), (0.2, -0.5, 0.7)][:nl]
+    roots = []
+    for r, c in enumerate(([9.7, 5.0, 5.0], [3.0, 3.0, 3.0])):  # the first molecule straddles the periodic face
+        pts = [[(c[d] + sh[d]) for d in range(3)] for sh in shape]
+        bary = [sum(p[d] for p in pts) / nl % L for d in range(3)]
+        n = Node(Particle(bary))
+        for p in pts:
+            n.add_child(Node(Particle([x % L for x in p])))
+        roots.append(n)
+    sh = TreeStateHandler(TreePhysicalState(), TreeLiftingState())
+    sh.initialize(roots)
+    to_root = RootLeafUnitActiveSwitcher(chain_length=0.37, aim_mode="root_unit_active")
+    to_leaf = RootLeafUnitActiveSwitcher(chain_length=0.41, aim_mode="leaf_unit_active")
+    # start: leaf (0, 1 % nl) moves along x
+    b = sh.extract_from_global_state((0,))
+    a0 = 1 % nl
+    v = [speed, 0.0, 0.0]
+    b.children[a0].value.velocity, b.children[a0].value.time_stamp = list(v), Time(0.0, 0.25)
+    b.value.velocity, b.value.time_stamp = [x / nl for x in v], Time(0.0, 0.25)
+    sh.insert_into_global_state([b])
+
+    def verify(where, t):
+        g = {}
+
+        def rec(c):
+            u = c.value
+            g[u.identifier] = (list(u.position), None if u.velocity is None else list(u.velocity),
+                               None if u.time_stamp is None else u.time_stamp.quotient + u.time_stamp.remainder)
+            for ch in c.children:
+                rec(ch)
+        for r in sh.extract_global_state():
+            rec(r)
+        for r in range(2):
+            pr, vr, tr = g[(r,)]
+            lv = [g[(r, k)] for k in range(nl)]
+            vs = [sum((l[1][d] if l[1] is not None else 0.0) / nl for l in lv) for d in range(3)]
+            if vr is None:
+                if any(l[1] is not None for l in lv):
+                    fails.append(("switch-velocity-absent", "%d-atom molecule %d after %s: point masses move but the "
+                                  "root has no velocity" % (nl, r, where)))
+                prt = pr
+            else:
+                if all(l[1] is None for l in lv):
+                    fails.append(("switch-velocity-present", "%d-atom molecule %d after %s: root velocity %r but no "
+                                  "point mass moves" % (nl, r, where, vr)))
+                if any(abs(vr[d] - vs[d]) > 1e-10 for d in range(3)):
+                    fails.append(("switch-velocity", "%d-atom molecule %d after %s: root velocity %r, weighted sum of "
+                                  "the point masses %r" % (nl, r, where, vr, vs)))
+                prt = [pr[d] + vr[d] * (t - tr) for d in range(3)]
+            off = [0.0, 0.0, 0.0]
+            for (pl, vl, tl) in lv:
+                if vl is not None:
+                    pl = [pl[d] + vl[d] * (t - tl) for d in range(3)]
+                for d in range(3):
+                    off[d] += (((pl[d] - prt[d]) + L / 2) % L - L / 2) / nl
+            if any(abs(x) > 1e-9 * L for x in off):
+                fails.append(("switch-barycentre", "%d-atom molecule %d after %s: root is off the barycentre by %r"
+                              % (nl, r, where, off)))
+    verify("start", 0.25)
+
+    class Pol:
+        def __call__(self, kind, args, index):
+            if kind == "choice":
+                return pick % args[0]
+            raise HarnessError("switcher drew random.%s" % kind)
+    from ..core import HarnessError
+    with Seam(Pol()):
+        for rounds in range(2):
+            for name, handler in (("leaf->root switch", to_root), ("root->leaf switch", to_leaf)):
+                active = sh.extract_active_global_state()
+                t = handler.send_event_time([copy_branch(active[0])])
+                # the mediator hands the branch of the root of the active unit
+                root_id = active[0].value.identifier[:1]
+                out = handler.send_out_state([sh.extract_from_global_state(root_id)])
+                sh.insert_into_global_state(out)
+                verify(name, t.quotient + t.remainder)
+    setting.reset()
+    return (("switch", nl), 5), fails
+
+
+def copy_branch(b):
+    import copy
+    return copy.deepcopy(b)
+
+
 def run(ctx):
     from ..core import Result
     from .. import par
     from ..fl import enc
     res = Result()
     st = _enva.run_monitors(ctx, res, MON, FILTER)
+    sw = [("switch", nl, pick, speed) for nl in (2, 3, 4) for pick in range(nl) for speed in (1.0, 0.7)]
+    nsw, sigsw, failsw = par.run_cases(check_switcher, sw, ctx.cores, chunk=2)
+    for key, case, msg in failsw:
+        res.add(key, {"switch_case": enc(case)}, msg)
     cc = list(creator_cases(ctx))
     n, sigs, fails = par.run_cases(check_creator, cc, ctx.cores, chunk=2)
     for key, case, msg in fails:
         res.add(key, {"creator_case": enc(case)}, msg)
     res.coverage = _enva.coverage(st, MON, RULE + " Plus the real dipole / water random node creators under scripted "
                                   "draws: all centres {0.001 L, L/2, 0.999 L}^3 x orientation vectors {-0.5, 0.1, 0.5}^3 "
-                                  "(x second vector / separation): molecules straddling every periodic face.")
+                                  "(x second vector / separation): molecules straddling every periodic face; and the molecule <-> atom mode "
+                                  "switches driven on molecules of 2, 3 and 4 point masses through the real state handler.")
     res.coverage["creator_molecules"] = sum(k for _, k in sigs)
+    res.coverage["mode_switch_sequences"] = nsw
     res.coverage["evaluations"] += res.coverage["creator_molecules"]
     res.assumptions = list(_enva.ASSUMPTIONS)
     return res
 
 
 def replay(ctx, case):
+    if "switch_case" in case:
+        from ..fl import dec
+        from .. import par
+        _, fails = par.guarded(check_switcher)(dec(case["switch_case"]))
+        return sorted(set(k for k, _ in fails)) or None
     if "creator_case" in case:
         from ..fl import dec
         from .. import par
